@@ -3,6 +3,7 @@ package lua
 import (
 	"context"
 	"fmt"
+	"math"
 	"os"
 )
 
@@ -131,10 +132,19 @@ func (nm LNumber) Format(f fmt.State, c rune) {
 	case 'c':
 		// C's %c writes one byte; Go's writes the UTF-8 encoding of the code point
 		defaultFormat(string([]byte{byte(int64(nm))}), f, 's')
-	case 'b', 'd', 'o', 'x', 'X', 'U':
+	case 'o', 'x', 'X':
+		// C converts the argument of these directives to an unsigned integer: -1 is ffffffffffffffff
+		defaultFormat(uint64(int64(nm)), f, c)
+	case 'u':
+		defaultFormat(uint64(int64(nm)), f, 'd')
+	case 'b', 'd', 'U':
 		defaultFormat(int64(nm), f, c)
 	case 'e', 'E', 'f', 'F', 'g', 'G':
-		defaultFormat(float64(nm), f, c)
+		if v := float64(nm); math.IsInf(v, 0) || math.IsNaN(v) {
+			writePadded(f, cNonFinite(v, f, c))
+		} else {
+			defaultFormat(v, f, c)
+		}
 	case 'i':
 		defaultFormat(int64(nm), f, 'd')
 	default:
